@@ -104,12 +104,21 @@ MaskFails(ins, fl, out) ==
      ELSE IF noflags THEN
         (IF out.tag = "sig" THEN Clause(~C03_Exact(sig, fl.n, names, out.ps, Calls), "C03_Exact")
                                  \cup Clause(~C03_RaiseIff(sig, fl.n, names, FALSE, CallsBig), "C03_RaiseIff")
-         ELSE IF out.tag = "valueerror" THEN Clause(~C03_RaiseIff(sig, fl.n, names, TRUE, CallsBig), "C03_RaiseIff")
+         (* ... except that with hide_args the hidden positionals may themselves fill a positional-or-keyword parameter that is *)
+         (* also named: mask may then refuse ("duplicate argument") although sig could take the names alone                    *)
+         ELSE IF out.tag = "valueerror" /\ ~(fl.ha /\ names \cap {sig[x].n : x \in {y \in DOMAIN sig : sig[y].k = "pok"}} # {})
+              THEN Clause(~C03_RaiseIff(sig, fl.n, names, TRUE, CallsBig), "C03_RaiseIff")
          ELSE {})
      ELSE
         (IF out.tag = "sig" THEN
               Clause(~C03_HideRemovesAll(out.ps, fl.ha, fl.hk, fl.hva, fl.hvk), "C03_HideRemovesAll")
          \cup Clause(~C03_HideSound(sig, fl.n, names, out.ps, Calls, CallsBig), "C03_HideSound")
+         (* the hide flags only remove parameters from the result: whether mask raises is decided by n and the names alone *)
+         \cup Clause(~C03_RaiseIff(sig, fl.n, names, FALSE, CallsBig), "C03_RaiseIff")
+         (* ... except that with hide_args the hidden positionals may themselves fill a positional-or-keyword parameter that is *)
+         (* also named: mask may then refuse ("duplicate argument") although sig could take the names alone                    *)
+         ELSE IF out.tag = "valueerror" /\ ~(fl.ha /\ names \cap {sig[x].n : x \in {y \in DOMAIN sig : sig[y].k = "pok"}} # {})
+              THEN Clause(~C03_RaiseIff(sig, fl.n, names, TRUE, CallsBig), "C03_RaiseIff")
          ELSE {})
 
 (* --------------------------------------------------------------- partial *)
